@@ -193,9 +193,10 @@ PROPS = {
                     "differential result: it rests on the critical-section predicates (each call is one locked region) and the real-socket "
                     "oracle c01-real-stream; the real tier compares no model field. accepted = reported is proved for well-formed sendfile(2) "
                     "answers only (OpsWF); c01_reported_needs_wf shows the divergence otherwise. After a fatal Sendfile the wire may hold a "
-                    "prefix of the failing call's range although the call reported 0 (harness: tolerate): c01_wire_prefix_of_reported proves, "
-                    "open or closed, wire <+: reported ++ p with p empty unless one Sendfile of the run failed after transmitting the prefix p "
-                    "of its range. Transport differences are covered by sampling (typ=, "
+                    "prefix of the failing call's range although the call reported 0 (harness: tolerate): c01_wire_prefix_of_reported proves (under "
+                    "OpsWF), open or closed, accepted = reported ++ p and wire <+: reported ++ p, where p != [] implies that the conn is closed and "
+                    "p is a prefix of the range of SOME Sendfile op of the run - no more at run level; that this op is the failing, closing one "
+                    "is stated at step level only (step_reported_ex). Transport differences are covered by sampling (typ=, "
                     "which the model ignores) and the oracle-only real tier",
             "technique": _TECH},
         "lean": ["NbioVerif.Properties.C01", "NbioVerif.Properties.ConnTimer", "NbioVerif.Properties.ConnClose", srcgen.BRIDGE_CONN], "drivers": ["conndrv"], "harness": ["hconn"],
@@ -226,15 +227,21 @@ PROPS = {
             "note": "liveness in safety form (armed invariant + ET edge invariant + decreasing measure + composed drain rounds) under the fairness "
                     "assumption that an armed writable fd is eventually reported; in ET the kernel is assumed to report writability after every "
                     "refused or short write (ghost edgeDue), and c04_drains composes the rounds under that; c04_drains starts from a Quiet state "
-                    "(registered, no event tail pending); a registered open reachable state becomes Quiet by the poller's tail alone "
-                    "(c04_quiet_after_tail, composed in c04_drains_from_open; an unregistered one is registered first: c04_register_arms). Calls "
+                    "(registered, no event tail pending) and is proved for ONE canonical schedule only: every round is [EPOLLOUT reported and "
+                    "answered .wrote N with N > 0, evEnd], no EINTR, no read or error events and no calls inside the rounds. A reachable state "
+                    "that is registered, has early = false, whose connect event (if it is dialing) has been taken (connecting -> connEv), and "
+                    "that is still open after the tail is Quiet after the poller's tail (c04_quiet_after_tail, composed in c04_drains_from_open); "
+                    "excluded: a dialing conn whose connect event has not arrived, early = true, an error close in the tail; an unregistered "
+                    "conn is registered first (c04_register_arms, not composed). Calls "
                     "between the poller's tail actions are covered by the theorems over arbitrary op sequences and the critical-section "
                     "predicates; the differential runs the merged evEnd only (= the three ops in a row, c04_tail_is_three_steps), except for "
-                    "race= ops where the driver runs evConnEnd, evRearm, the racing call, evErrClose (no error event pending there). Only the "
+                    "race= ops where the driver runs evConnEnd, evRearm, the racing call, evErrClose - with no error event pending there this is "
+                    "extensionally evEnd followed by the call, and no op ever lands between evConnEnd and evRearm. Only the "
                     "default read path is modelled (g.onRead == nil, AsyncReadInPoller off). ET edge and drain theorems assume no call precedes "
                     "the connected callback of a DialAsync conn (c04_et_edge_counterexample_early). A dial that connected at once (addDialer without a "
                     "pending callback: read+write registered, isWAdded set, nothing queued) is the op registerDialNow / hconn dial=2 (state flag "
-                    "idle in the belief invariant); flush on an empty queue calls resetRead as in the code (repo fix 42b91d9): it drops that "
+                    "idle in the belief invariant); flush on an empty queue calls resetRead as in the code (repo fix 42b91d9) and ResetPollerEvent clears "
+                    "isWAdded when it re-arms for reading only (repo fix 002fd23): the former drops that "
                     "idle write interest (c04_flush_empty_drops_idle) and is a no-op otherwise (c04_flush_empty_noop); the dial callback of such "
                     "a conn is an ordinary caller (hconn runs its calls right after the registration)",
             "technique": _TECH},
@@ -261,10 +268,13 @@ PROPS = {
             "note": "queued file ranges (Sendfile) are not held bytes and are not counted, as in the code. Writev is assumed to pass <= IOV_MAX "
                     "non-empty slices; where exactly that matters is proved on the model with the kernel's EINVAL rule as an answer transformer "
                     "(c17_fits_writev_iovmax_partial: <= IOV_MAX slices or any number behind a backlog: accepted in full; > IOV_MAX on an empty "
-                    "queue: (0, err), not ErrOverflow, nothing accepted, conn closed); the generator uses 0-6 slices. Sendfile's acceptance (c17_fits_accepted_sendfile) assumes dup(2) succeeds and no fatal kernel answer; "
+                    "queue: (0, err), not ErrOverflow, nothing accepted, conn closed); iovAns / iovCount / iovMax are specification-side "
+                    "definitions in Properties/C17.lean, not part of the model: the theorem is about writev g s bs (iovAns bs k), the driver never "
+                    "applies iovAns, and the Go side of the EINVAL case is not sampled (the generator uses 0-6 slices). Sendfile's acceptance (c17_fits_accepted_sendfile) assumes dup(2) succeeds and no fatal kernel answer; "
                     "with a failing dup the call may fail although it fits (the oracle c17-fits exempts EMFILE) and what holds instead is proved "
-                    "on the model: c17_fits_sendfile_nodup_partial (never the overflow error, n = whole range or 0, and while the conn stays "
-                    "open queue and counter are exactly as before), c17_inv_nodup (accounting and bound hold after it)",
+                    "on the model: c17_fits_sendfile_nodup_partial (hypotheses: reachable state and well-formed sendfile answers KWF ks; never "
+                    "the overflow error, n = whole range or 0, and while the conn stays open queue and counter are exactly as before), "
+                    "c17_inv_nodup (accounting and bound hold after it)",
             "technique": _TECH},
         "lean": ["NbioVerif.Properties.C17"], "drivers": ["conndrv"], "harness": ["hconn"],
         "runs": [_run(["n", "err", "ow", "cb", "rc", "closed", "left", "wl"])],
